@@ -156,7 +156,7 @@ def check_case(ctx, text, doc, cls):
             r = impl.call(patch.apply, target)
             detail = {"text": text, "parts": list(parts), "pointer": str(ptr.value), "op": what}
             ptext = str(ptr.value)
-            if r.ok and "\\" not in ptext and not any(isinstance(p, str) and (p[:1] in "#~" or p != p.strip() or (p.lstrip("-").isdigit() and len(p) > 15)) for p in parts) and what in ("test", "remove") and (cls == "flags-history" or ctx.rng.random() < 0.3):
+            if r.ok and "\\" not in ptext and not any(isinstance(p, str) and (p[:1] in "#~" or gen.over_limit(p)) for p in parts) and ptext == ptext.lstrip() and what in ("test", "remove") and (cls == "flags-history" or ctx.rng.random() < 0.3):
                 # the pointer's string form addresses the same location (names that the pointer syntax
                 # reads differently - leading blanks, markers, over-limit integers - are left to the object route)
                 p2 = getattr(jsonpath.JSONPatch(), what)(*( (ptext, copy.deepcopy(m.obj)) if what == "test" else (ptext,) ))
